@@ -483,7 +483,7 @@ func churnProgram(rng *rand.Rand, n int, big bool, variant int) *program {
 	if maxSz > 300 {
 		maxSz = 300
 	}
-	raw := rng.Intn(2) == 0 // a backup fragment receives raw entries only
+	raw := []bool{false, true, true, false, true, false, false, true}[variant%8] // a backup fragment receives raw entries only
 	round := 150 + rng.Intn(200)
 	if big {
 		round = 4000
